@@ -201,6 +201,11 @@ class InlineTranslator:
                         replace_cond = cond
             if replace_elem is None or replace_cond.ast_type != ASTType.Literal or replace_cond.sign != Sign.NoSign:
                 return atom
+            # the arguments of the helper atom have to be distinct variables: a repeated variable or a constant is a
+            # condition on the helper's value that the unfolded element would lose
+            cargs = list(replace_cond.atom.symbol.arguments)
+            if any(arg.ast_type != ASTType.Variable for arg in cargs) or any(cargs.count(arg) != 1 for arg in cargs):
+                return atom
             rest_elems = [elem for elem in atom.elements if elem != replace_elem]
             ### check if tuple set semantic does not allow for unique identification
             if any(map(lambda x: potentially_unifying_sequence(x.terms, replace_elem.terms), rest_elems)):
